@@ -64,6 +64,10 @@ CHECKS = {
    text="All matcher predicates (_check_operands, _check_x86_operands, _check_AArch64_operands, _is_x86_reg_type, _is_AArch64_reg_type, _is_x86_mem_type, _is_AArch64_mem_type, with ParserX86ATT.is_vector_register) are symbolically executed for every entry-operand shape x parsed-operand shape with symbolic names, scales and values and proved equal to an independent reference matcher written from the statement (contracts/spec_matcher.py, itself executed symbolically and natively); _match_operands is verified for operand lists of unbounded length; get_instruction (upper-cased key, first match in list order) for <= 3 entries. The data half - every entry of the shipped models is found by the instruction synthesised from its own pattern and the first reference-accepted entry is returned - is a bounded exhaustive run over the model files.",
    note="Spec decisions excluded: k0-7 vs gpr, AArch64 lanes, operand without arrangement vs entry with one; entry vocabulary = that of the shipped files. Known findings: 'mm0' register class in ivb/snb/icl (unreachable entries).",
    tech=TECH + " against a symbolically executed reference; bounded exhaustive data sweep"),
+ "C08": dict(cat="proof", ref="DESIGN.md section 4 C08",
+   text="The composition branch of assign_tp_lt is symbolically executed through the real table lookups, matchers, uniform split and operand constructors on scenarios with concrete structure (load / store / read-modify-write, typed / untyped / non-matching rows and defaults, multipliers, entry found under the full mnemonic / only without suffix / not at all, missing latency or throughput; both ISAs) and symbolic cycle counts, latencies, throughputs and multipliers: micro-ops = register form ++ load ++ store, pressure = sum of the uniform splits, latency = register form + load latency of the register type, throughput = max(register-form throughput, busiest data port), unknown flags exactly for the neither-form case. The frame obligation (nothing reachable from the model or the matched entry changes) is proved on every path. A bounded unit compares the real add_semantics on a curated vocabulary x shipped models with an independent recomputation from the plain YAML, analyses everything twice and deep-compares the model afterwards.",
+   note="Structure of the scenarios bounded (reported as bounded structure, values symbolic); get_instruction through its C07 contract.",
+   tech=TECH + " with heap identities / frame obligations; bounded independent recomputation from YAML"),
 }
 NA = {
  "C17": "quantifies over file-system histories, crash points of cache writes and process races; no function contract decides it (needs fault enumeration / a file-system model)",
